@@ -78,7 +78,8 @@ class ExploreStats:
 def explore(run: Callable[[Chooser], Any], on_exec: Callable[[Chooser, Any], None], *,
             max_deviations: Optional[int] = None, max_executions: Optional[int] = None,
             stats: Optional[ExploreStats] = None, state_ns: Any = None,
-            outcome_of: Optional[Callable[[Any], Any]] = None) -> ExploreStats:
+            outcome_of: Optional[Callable[[Any], Any]] = None,
+            stop_when: Optional[Callable[[], bool]] = None) -> ExploreStats:
     """Exhaust the choice tree of `run`.  `on_exec(chooser, observation)` is
     called for every complete execution (that is where oracles run)."""
     stats = stats or ExploreStats()
@@ -86,6 +87,11 @@ def explore(run: Callable[[Chooser], Any], on_exec: Callable[[Chooser, Any], Non
     while stack:
         prefix, expect = stack.pop()
         if max_executions is not None and stats.executions >= max_executions:
+            stats.capped = True
+            break
+        if stop_when is not None and stop_when():
+            # enough violating executions of this configuration have been seen: the verdict on it is
+            # settled, the rest of its tree (which a broken tree can blow up to the cap) is not explored
             stats.capped = True
             break
         ch = Chooser(prefix, expect)
